@@ -112,7 +112,9 @@ def main(argv):
         reproduced, detail = None, 'no replay oracle for this obligation'
         o = obmap.get(oid)
         replays_done[oid] = replays_done.get(oid, 0) + 1
-        if o is not None and o.replay is not None and replays_done[oid] > 2:
+        if o is not None and o.replay is not None and os.environ.get('GM2V_NO_REPLAY'):
+            detail = 'not replayed: GM2V_NO_REPLAY is set (regression run over archived seeds: only the verdict is of interest)'
+        elif o is not None and o.replay is not None and replays_done[oid] > 2:
             detail = 'not replayed: two failures of the same obligation group %s were already replayed in this run' % oid
         elif o is not None and o.replay is not None:
             wd = native.workdir('replay')
